@@ -31,7 +31,7 @@ reg["C16"] = {
     "harnesses": both(["VH_C16_UpdatePromise", "VH_C16_CreatePromise", "VH_C16_CreateCallback", "VH_C16_DeleteCallbacks", "VH_C16_UpdateTask",
                        "VH_C16_CreateTask", "VH_C16_CompleteTasks", "VH_C16_HeartbeatTasks", "VH_C16_CreateTasks", "VH_C16_AcquireLock",
                        "VH_C16_ReleaseLock", "VH_C16_HeartbeatLocks", "VH_C16_TimeoutLocks", "VH_C16_CreateSchedule", "VH_C16_UpdateSchedule",
-                       "VH_C16_DeleteSchedule"]),
+                       "VH_C16_DeleteSchedule", "VH_C16_CreatePromiseAndTask"]),
 }
 
 here = os.path.dirname(os.path.abspath(__file__))
